@@ -1,12 +1,12 @@
 SPECIFICATION InitOnly
 CONSTANTS
   Configs <- TheConfigs
-  Ns = {0, 1, 2, 3}
+  Ns = {0, 1, 2}
   NestSets <- NestThorough
   Bounds <- BoundsLive
   Pools = {FALSE, TRUE}
   Fds = {TRUE}
-  ScriptLen = 3
+  ScriptLen = 2
   LongScripts = TRUE
   FdStop = TRUE
   SkipAll = FALSE
